@@ -51,7 +51,9 @@ class AsyncKicker(Generic[_FuncParams, _ReturnType]):
     ) -> None:
         self.task_name = task_name
         self.broker = broker
-        self.labels = labels
+        # The kicker owns its labels. Otherwise `with_labels`
+        # would change labels of the task (or message) it was created from.
+        self.labels = dict(labels)
         self.custom_task_id: Optional[str] = None
         self.custom_schedule_id: Optional[str] = None
         self.return_type = return_type
